@@ -203,7 +203,9 @@ def run(ctx):
         gu = _C(s_.audit_key() for s_ in ginv if not s_.discharge)
         for k, (n_, why) in ga.items():
             if gu[k] < n_:
-                res.floor("R1.1", "sites matching audit line `%s` of %s (remove or lower the stale line)" % (k, tsv), gu[k], n_)
+                # a panic site that went away is never a violation of totality and not a reason to withhold the verdict: recorded only.
+                # (On the pinned tree no line is unused — bin/mknames reports unused lines when the tables are regenerated — so a line can only become unused through an edit.)
+                res.note("R1.1c: audit line `%s` of %s covers %d site(s) but only %d exist now (a site was removed or changed shape)" % (k, tsv, n_, gu[k]))
     # ---------------- R1.3b ignore_errors is a tree-wide setting (shared rule R5.8)
     from rules.c05 import global_setters
     global_setters(fx, res, "R1.3", ["ignore_errors"])
